@@ -52,6 +52,10 @@ class Monitor(EventListener):
         self.log.append((event.event_type.name, getattr(event, "timestamp", None)))
 
 
+class ModelEvent(SimEvent):
+    """a user-defined event class: its instances must draw their ids from the same global counter as plain events"""
+
+
 class Worker(EventListener):
     def __init__(self, model, idx):
         self.model, self.idx = model, idx
@@ -62,7 +66,12 @@ class Worker(EventListener):
         m.draws.append((self.idx, d))
         m.notified.append(self.idx)
         m.prod.fire(DRAW, d)
-        m.simulator.schedule_event_rel(conv(d), m, "follow", PRIOS[1], who=self.idx)
+        if self.idx % 2 == 1:
+            # odd listeners schedule through a SimEvent SUBCLASS: ties with the plain events of the even listeners
+            # (same time, same priority) are broken by the ids
+            m.simulator.schedule_event(ModelEvent(m.simulator.simulator_time + conv(d), m, "follow", PRIOS[1], who=self.idx))
+        else:
+            m.simulator.schedule_event_rel(conv(d), m, "follow", PRIOS[1], who=self.idx)
 
 
 class Inspector(EventListener):
@@ -175,9 +184,10 @@ from pydsol.core.simevent import SimEvent
 class _T:
     def m(self): pass
 spec = json.loads(sys.argv[1])
-for _ in range(spec["prior"]):
-    SimEvent(0.0, _T(), "m")
 from harness import c07
+for k in range(spec["prior"]):
+    # unrelated earlier activity of the process: plain events and events of the model's own event class
+    (c07.ModelEvent if k %% 3 == 0 else SimEvent)(0.0, _T(), "m")
 out = c07.run_once(spec["times"], spec["order"], spec["seed"], spec["rnr"], spec["end"], spec["pause_at"], 0, [0, 0], 0, spec.get("bound", -1))
 print("DIGEST " + json.dumps(out, default=lambda o: float(o).hex() if isinstance(o, float) else repr(o)))
 os._exit(0)
@@ -207,7 +217,7 @@ def h_twin(times: List[int], oi: int, seed: int, rnr: int, end: int, pa: int, pb
     """
     pre: len(times) == 2 and times[0] == 0 and 0 <= times[1] <= VMAX
     pre: oi == FIXOI
-    pre: seed == 3 and rnr == FIXRNR
+    pre: (seed == 3 or seed == 0) and rnr == FIXRNR
     pre: end == VMAX
     pre: 0 <= pa <= 3 and pb == 0
     pre: -1 <= ba < end and (ba < 0 or pa == 0)
